@@ -1176,6 +1176,13 @@ func callBuiltin(caller *frame, callpos token.Pos, fn *ssa.Builtin, args []value
 	case "String":
 		n := int(asInt64(args[1]))
 		b, ok := toBytes(args[0])
+		if p, isPtr := args[0].(*value); isPtr && !ok {
+			// pointer to the first element of a byte slice (&b[0])
+			if n == 0 {
+				return ""
+			}
+			b, ok = unsafe.Slice(p, n), true
+		}
 		if !ok {
 			panic(pathTruncated{"unsupported: unsafe.String on a non-slice pointer"})
 		}
@@ -1183,6 +1190,12 @@ func callBuiltin(caller *frame, callpos token.Pos, fn *ssa.Builtin, args []value
 	case "Slice":
 		n := int(asInt64(args[1]))
 		b, ok := toBytes(args[0])
+		if p, isPtr := args[0].(*value); isPtr && !ok {
+			if n == 0 {
+				return []value{}
+			}
+			return unsafe.Slice(p, n)
+		}
 		if !ok {
 			panic(pathTruncated{"unsupported: unsafe.Slice on a non-string pointer"})
 		}
